@@ -136,7 +136,7 @@ def extract(config, repo=None, crate="num_bigint", flags=None, profile=None):
     return out
 
 
-def prune_cache(keep=None, max_entries=6):
+def prune_cache(keep=None, max_entries=40):
     try:
         ents = [(os.path.getmtime(os.path.join(CACHE, d)), d) for d in os.listdir(CACHE)]
     except OSError:
@@ -144,8 +144,10 @@ def prune_cache(keep=None, max_entries=6):
     ents.sort(reverse=True)
     import shutil
 
-    for _, d in ents[max_entries:]:
-        if d != keep:
+    now = time.time()
+    for mt, d in ents[max_entries:]:
+        # never remove an entry another (parallel) check may still be reading
+        if d != keep and now - mt > 3600:
             shutil.rmtree(os.path.join(CACHE, d), ignore_errors=True)
 
 
@@ -475,7 +477,14 @@ def load(config, repo=None):
     repo = repo or REPO
     k = (config, repo, tree_sha(repo))
     if k not in _facts_cache:
-        _facts_cache[k] = Facts(extract(config, repo), config)
+        try:
+            _facts_cache[k] = Facts(extract(config, repo), config)
+        except (FileNotFoundError, json.JSONDecodeError):
+            # cache entry vanished / half written under a parallel run: extract again
+            p = os.path.join(CACHE, tree_sha(repo), "num_bigint-%s.json" % config)
+            if os.path.exists(p):
+                os.remove(p)
+            _facts_cache[k] = Facts(extract(config, repo), config)
     return _facts_cache[k]
 
 
